@@ -2,7 +2,6 @@ package model
 
 import (
 	"context"
-	"errors"
 	"fmt"
 	"sort"
 	"strings"
@@ -184,20 +183,23 @@ type Checker struct {
 
 func NewChecker() *Checker { return &Checker{X: NewExec(), S: NewSpec()} }
 
-func RemoveNodeClassOf(err error) string {
-	switch {
-	case err == nil:
+// RemoveNodeOutcome classifies what a RemoveNode call did by its observable effect, not by the
+// wording or identity of its error: "removed" (nil, or the node's Close ran during the call - a
+// Close error is reported while the removal stands) or "refused".
+func RemoveNodeOutcome(err error, closedDuringCall int) string {
+	if err == nil || closedDuringCall > 0 {
 		return "removed"
-	case errors.Is(err, eventlogger.ErrNodeNotFound):
-		return "notfound"
-	case strings.Contains(err.Error(), "still in use"):
-		return "inuse"
-	case strings.Contains(err.Error(), "unable to close node"):
-		return "removed"
-	case errors.Is(err, eventlogger.ErrInvalidParameter):
-		return "invalid"
 	}
-	return "other:" + err.Error()
+	return "refused"
+}
+
+// Refusal folds the specification's reasons for not removing a node ("invalid", "notfound",
+// "inuse") into the one outcome the statements speak about.
+func Refusal(class string) string {
+	if class == "removed" {
+		return class
+	}
+	return "refused"
 }
 
 // Apply runs op on both sides and returns a mismatch description ("" = agree).
@@ -303,11 +305,11 @@ func (c *Checker) apply(op Op) string {
 		before := closesByID(x)
 		r := x.Apply(op)
 		want := s.RemoveNode(op.N)
-		got := RemoveNodeClassOf(r.Err)
-		if got != want {
-			return fmt.Sprintf("%s returned %v (class %s), specification says %s", op, r.Err, got, want)
-		}
 		after := closesByID(x)
+		got := RemoveNodeOutcome(r.Err, after[op.N]-before[op.N])
+		if got != Refusal(want) {
+			return fmt.Sprintf("%s returned %v (outcome %s), specification says %s", op, r.Err, got, want)
+		}
 		for id := range union(before, after) {
 			d := after[id] - before[id]
 			if id == op.N && want == "removed" {
@@ -378,11 +380,11 @@ func (c *Checker) CheckState(ets, ids []string, newNode func(op Op, n *nodes.N))
 		cp := Replay(x.Hist, newNode)
 		before := closesByID(cp)
 		err := cp.B.RemoveNode(context.Background(), eventlogger.NodeID(id))
-		got := RemoveNodeClassOf(err)
-		if got != want {
+		after := closesByID(cp)
+		got := RemoveNodeOutcome(err, after[id]-before[id])
+		if got != Refusal(want) {
 			return fmt.Sprintf("in-use accounting: RemoveNode(%q) in this state gives %q (%v), specification says %q (registered pipelines: %s)", id, got, err, want, s.PipesString())
 		}
-		after := closesByID(cp)
 		for k := range union(before, after) {
 			d := after[k] - before[k]
 			if (k == id && want == "removed" && d != 1) || ((k != id || want != "removed") && d != 0) {
@@ -401,3 +403,6 @@ func (s *Spec) PipesString() string {
 	sort.Strings(out)
 	return strings.Join(out, " ")
 }
+
+// ClosesByID: how often the nodes created for each id were closed so far.
+func (x *Exec) ClosesByID() map[string]int { return closesByID(x) }
